@@ -465,7 +465,7 @@ var argvAlphabet = []string{
 	"-B", // an undefined name that differs from a defined one by case only
 }
 
-var argvNearMisses = []string{"-", "--", "---x", "-=", "-x=", "--=v", "---", "----", "-=x", "--=", "--==", "-x==", "- ", "-\x00", "--\xff", "-\xc3", "--x=", "=x", "-x-", "--x-=-"}
+var argvNearMisses = []string{"-helpme", "--helpx=1", "-nn", "-bb=1", "-ss", "-config2", "-", "--", "---x", "-=", "-x=", "--=v", "---", "----", "-=x", "--=", "--==", "-x==", "- ", "-\x00", "--\xff", "-\xc3", "--x=", "=x", "-x-", "--x-=-"}
 
 func configValidText(r *Rng, k configKind) string {
 	switch k {
@@ -502,7 +502,7 @@ func configInvalidText(r *Rng, k configKind) string {
 	case ckDuration:
 		return Pick(r, []string{"1", "s", "1x", "-", "1h1", "9999999h"})
 	case ckBytes:
-		return Pick(r, []string{"a", "aGk", "!!!!", "aGk=\n=", "-b"})
+		return Pick(r, []string{"a", "aGk", "!!!!", "aGk=\n=", "-b", "QQ=", "QQ", "=", "QUI===", "QUJD=", "aGk=="})
 	}
 	return "\xff" // strings accept everything
 }
